@@ -19,8 +19,7 @@ Part F  the Client.Fetch-path DECODER (Model/RecordReader: readFromVersion2, rea
         (`decoders_agree_client`), hides control batches (`control_hidden`) and surfaces nothing of a batch with
         a wrong checksum (`bad_crc_yields_no_records`).
 Still partial (correspondence `fetch/conn-*`, and C02's token-level model `Model/MessageSetReader` with its theorem
-`single_fetch_partial` for the Conn path): the byte-level equality for the Conn/Batch reader and for v1 WRAPPERS
-on the Client path (the model `libReadV1` covers them; the theorem below covers v2 batches and plain messages):
+`single_fetch_partial` for the Conn path): the byte-level equality for the Conn/Batch reader:
 
   theorem decoders_agree : ∀ valid entries es, clientFetch (encSet es) = connRead (encSet es) = flatten es
 -/
@@ -159,13 +158,14 @@ theorem v1_write_spec (c : Crcs) (h1 : ∀ b, c.ieee b < M32) (h2 : ∀ b, c.cas
 
 open Model.RecordReader in
 /-- `decoders_agree`, Client.Fetch side: on every valid response — any sequence of v2 batches (any codec whose
-decompressor returns the encoded records, transactional, control, compaction gaps: any deltas) and plain v0/v1
-messages, any number of entries — the decoder model (`RecordSet.ReadFrom` + `RecordStream`) returns exactly
+decompressor returns the encoded records, any attribute bits: transactional, control, timestamp type, delete
+horizon, unknown bits; compaction gaps: any deltas), plain v0/v1 messages and compressed v1 WRAPPERS with relative
+inner offsets (also compacted: any inner offsets), any number of entries — the decoder model (`RecordSet.ReadFrom` + `RecordStream`) returns exactly
 the records and absolute offsets of the reference decoder, minus control batches. -/
 theorem decoders_agree_client (c : Crcs) (h1 : ∀ b, c.ieee b < M32) (h2 : ∀ b, c.castagnoli b < M32)
-    (dec : Int → Bytes → Option Bytes) (es : List Entry) (gs : List (Bool × List Rec)) (h : AllGood dec es gs) :
+    (dec : Int → Bytes → Option Bytes) (es : List Entry) (gs : List (Bool × List Rec)) (h : AllGood c dec es gs) :
     flattenAll c dec es = some gs ∧ clientFetch c dec (encSet c es) = surfaced gs := by
-  refine ⟨flattenAll_good c dec es gs h, ?_⟩
+  refine ⟨flattenAll_good c h1 h2 dec es gs h, ?_⟩
   have := libReadSet_encSet c h1 h2 dec es gs h [] (encSet c es).length (encSet_length_ge c es)
   simp only [List.append_nil] at this
   simp only [clientFetch, this]
@@ -174,7 +174,7 @@ theorem decoders_agree_client (c : Crcs) (h1 : ∀ b, c.ieee b < M32) (h2 : ∀ 
 open Model.RecordReader in
 /-- `control_hidden`: nothing of a control batch is surfaced; everything else is, in order -/
 theorem control_hidden (c : Crcs) (h1 : ∀ b, c.ieee b < M32) (h2 : ∀ b, c.castagnoli b < M32)
-    (dec : Int → Bytes → Option Bytes) (es : List Entry) (gs : List (Bool × List Rec)) (h : AllGood dec es gs) :
+    (dec : Int → Bytes → Option Bytes) (es : List Entry) (gs : List (Bool × List Rec)) (h : AllGood c dec es gs) :
     clientFetch c dec (encSet c es) = ((gs.filter (fun g => !g.1)).flatMap (·.2)) ∧
     (∀ g ∈ gs, g.1 = true → ∀ r ∈ g.2, r ∈ clientFetch c dec (encSet c es) →
         ∃ g' ∈ gs, g'.1 = false ∧ r ∈ g'.2) := by
@@ -190,7 +190,7 @@ open Model.RecordReader in
 /-- `bad_crc_yields_no_records`: a batch whose stored checksum differs from the computed one ends decoding: the
 records of the entries before it are surfaced, none of the corrupt batch (nor anything after it) -/
 theorem bad_crc_yields_no_records (c : Crcs) (h1 : ∀ b, c.ieee b < M32) (h2 : ∀ b, c.castagnoli b < M32)
-    (dec : Int → Bytes → Option Bytes) (es : List Entry) (gs : List (Bool × List Rec)) (h : AllGood dec es gs)
+    (dec : Int → Bytes → Option Bytes) (es : List Entry) (gs : List (Bool × List Rec)) (h : AllGood c dec es gs)
     (f : FrameV2) (xs : List RecV2) (hf : GoodBatch dec f xs) (c' : Nat) (hc : c' < M32)
     (hne : c' ≠ c.castagnoli (frameBody f)) (tail : Bytes) :
     clientFetch c dec (encSet c es ++ (i64 f.baseOffset ++ (i32 ((9 + (frameBody f).length : Nat) : Int) ++
@@ -224,6 +224,18 @@ theorem bad_crc_yields_no_records (c : Crcs) (h1 : ∀ b, c.ieee b < M32) (h2 : 
       rw [hbs] at hl h16 hv2
       simp only [libReadSet, hl, if_false, h16, if_true, hv2]
   rw [hnil]; simp
+
+open Model.RecordReader in
+/-- v1 wrappers on the Client.Fetch path: a compressed message whose value holds inner messages with relative offsets
+(any, also with compaction gaps) and which carries the absolute offset of the last one decodes to the inner records
+at `wrapperOffset - lastRelative + relative` — on the decoder model and on the reference decoder alike -/
+theorem v1_wrapper_offsets (c : Crcs) (h1 : ∀ b, c.ieee b < M32) (h2 : ∀ b, c.castagnoli b < M32)
+    (dec : Int → Bytes → Option Bytes) (m : Msg) (inner : List Msg) (h : GoodWrapper c dec m inner) :
+    clientFetch c dec (encSet c [.msg m]) = wrapperRecs m inner ∧
+    flattenEntry c dec (.msg m) = some (false, wrapperRecs m inner) := by
+  have hg : AllGood c dec [.msg m] [(false, wrapperRecs m inner)] := .cons (.wrapper m inner h) .nil
+  have := (decoders_agree_client c h1 h2 dec _ _ hg).2
+  exact ⟨by simpa [surfaced] using this, spec_flatten_wrapper c h1 h2 dec m inner h⟩
 
 /-! ## Part E — constants regenerated from the Go sources on every run (`go/extract records`) -/
 
